@@ -305,20 +305,20 @@ PROPS = {
 }
 
 NOT_APPLICABLE = {
-    'C22': 'accuracy of hypergeometric functions / orthogonal polynomials is analytic',
-    'C23': 'accuracy of elliptic/theta/modular/AGM/Lambert W is analytic',
-    'C24': 'termination of series summation loops depends on convergence of asymptotic series for the given argument: no ranking function without the analysis (termination of integer loops under contract is reported with their functions)',
-    'C26': 'convergence/accuracy of quadrature on classes of integrands is analytic',
-    'C27': 'convergence of series/limits/extrapolation is analytic',
-    'C28': 'accuracy of numerical differentiation/Taylor/Pade is analytic',
-    'C30': 'backward-error statements about floating-point LU/QR are numerical analysis, not VCs',
-    'C31': 'eigen/SVD residual bounds are numerical analysis',
-    'C32': 'matrix function identities to a tolerance are numerical analysis',
-    'C34': 'accuracy of ODE Taylor stepping is analytic',
-    'C36': 'approximation accuracy is analytic',
-    'C41': 'locating/counting zeta zeros correctly rests on analytic facts (Gram/Rosser blocks, Turing method)',
-    'C42': 'accuracy of numerical inverse Laplace transforms is analytic (its precision handling is decided under C11)',
-    'C43': 'fp results are IEEE doubles from libm; no float theory here matches libm, and agreement to 2**-48 is numerical',
+    'C22': 'accuracy of hypergeometric functions / orthogonal polynomials is a statement about truncation and cancellation in series of reals; no contract over integers or an ordered-field abstraction within reach of this verifier decides it, and MPFR (the only rigorous reference in the sandbox) offers none of these functions beyond li2, which is used under C19',
+    'C23': 'accuracy of elliptic / theta / modular functions, AGM and Lambert W is analytic (convergence of q-series and Newton/Halley iterations); not expressible as a decidable contract here, and there is no independent rigorous reference for a bounded stand-in (mpfr_agm alone would cover one function out of the list)',
+    'C24': 'termination of the series-summation loops depends on the convergence of (asymptotic) series for the given argument: a ranking function needs the analysis; termination obligations of the integer loops that are under contract (e.g. the strip loop of _normalize) are discharged with their functions and reported there',
+    'C26': 'convergence and accuracy of numerical quadrature over classes of integrands is analytic; the only contract-level parts (precision frame, node cache keys) are decided under C11 and C33',
+    'C27': 'convergence of series acceleration, limits and extrapolation is analytic',
+    'C28': 'accuracy of numerical differentiation, Taylor and Pade coefficients is analytic (step-size / cancellation trade-off)',
+    'C30': 'backward-error statements about floating-point LU / QR / Cholesky depend on conditioning and growth factors: numerical analysis, not verification conditions; the LU cache invalidation protocol is decided under C33',
+    'C31': 'eigenvalue / SVD residual bounds are numerical analysis (convergence of QR iterations)',
+    'C32': 'matrix function identities hold up to a tolerance that depends on conditioning: numerical analysis',
+    'C34': 'accuracy of Taylor-series ODE stepping is analytic (the cache-protocol part of odefun is mentioned under C33 as not covered)',
+    'C36': 'accuracy of Chebyshev / Fourier approximations is analytic',
+    'C41': 'locating and counting zeta zeros correctly rests on analytic facts (Gram / Rosser blocks, Turing method) that no contract here can state',
+    'C42': 'accuracy of numerical inverse Laplace transforms is analytic (its precision handling is decided under C11: the invertlaplace leak was found and repaired there)',
+    'C43': 'fp results are IEEE doubles produced by libm / cmath; no float theory in the solvers matches libm, and agreement with mp to 2**-48 is a numerical statement; a bounded comparison would be a test, not a contract',
 }
 
 
